@@ -46,3 +46,8 @@ s = SendUnit(keep=skeep('C01.'))
 s.mutants = SEND_MUTANTS['C01']
 UNITS = [r, s, MQUnit(keep=keep_for('C01.')), LemmaUnit('C01.rejoin lemma', rejoin_lemmas), AssemblyUnit()]
 UNITS[2].mutants = tuple(m for m in MQUnit.mutants if 'C01' in m[4])
+
+
+def extra_checks(tier, seed, pool):
+    from .recvunit import bounded_histories
+    return bounded_histories('C01', tier)
